@@ -86,6 +86,31 @@ def family(tier):
     return out
 
 
+KINDS_DEG = ['B=t', 'B=B*t', 'B=B+t', 'C=B*B', 'C=C+B', 'C=B', 'B=1', 'C=C*t']
+PREFIX_DEG = ('B=0', 'C=0')
+
+
+def family_deg(tier):
+    """programs over an input signal t for the degree claims (C07): conditions on the parameter only"""
+    key = ('deg', tier)
+    if key in _FAM: return _FAM[key]
+    out = []
+    for sk in C12.all_skeletons(3 if tier == 'quick' else 4, False):
+        if _bad(sk): continue
+        nl, nc = _nleaves(sk), _nctrl(sk)
+        alpha = KINDS_DEG if nl + nc <= 3 else ['B=t', 'B=B*t', 'C=B*B', 'C=C+B']
+        full = ('block', tuple(('leaf', False) for _ in PREFIX_DEG) + tuple(sk[1]) + (('leaf', False),))
+        for ks in itertools.product(alpha, repeat=nl):
+            out.append((full, PREFIX_DEG + ks + ('final',), ('A',) * nc))
+    _FAM[key] = out
+    return out
+
+
+def tasks_deg(tier):
+    n = len(family_deg(tier)); chunk = max(1, (n + 127) // 128)
+    return [{'lo': i, 'hi': min(n, i + chunk), 'tier': tier, 'dt': 'Template', 'mode': 'degrees'} for i in range(0, n, chunk)]
+
+
 def tasks(tier):
     n = len(family(tier)); chunk = max(1, (n + 127) // 128)
     ts = []
@@ -285,13 +310,13 @@ def run_task(task):
     h = Harness(pr, 'analysis'); h.step_budget = 6_000_000
     h.notes['render_format'] = True
     stats = Stats()
-    fam = family(task['tier']); dt = task['dt']
+    fam = family_deg(task['tier']) if task.get('mode') == 'degrees' else family(task['tier']); dt = task['dt']
     shape = z3.Int('shape')
     h.inputs = {'shape': shape}
     base = [shape >= task['lo'], shape < task['hi']]
     R = lambda p, f: h.stub_res.append((re.compile(p), f))
     LIFT = r'(?:intermediate_representation::lifting::|ir::lifting::|lifting::)?TryLift<\(\)>>::try_lift'
-    V = {'A': lambda: ir.name('A'), 'B': lambda: ir.name('B'), 'C': lambda: ir.name('C'), 'D': lambda: ir.name('D'), 's': lambda: ir.name('s')}
+    V = {'A': lambda: ir.name('A'), 'B': lambda: ir.name('B'), 'C': lambda: ir.name('C'), 'D': lambda: ir.name('D'), 's': lambda: ir.name('s'), 't': lambda: ir.name('t')}
     local = lambda: ir.vtype('local')
 
     def mk_stmt(kind, i):
@@ -300,6 +325,12 @@ def run_task(task):
         asg = lambda n, e: ir.subst(V[n](), 'AssignLocalOrComponent', e, meta=m())
         if kind == 'B=0': return asg('B', ir.number(0, meta=m()))
         if kind == 'C=0': return asg('C', ir.number(0, meta=m()))
+        if kind == 'B=t': return asg('B', var('t'))
+        if kind == 'B=B*t': return asg('B', ir.infix('Mul', var('B'), var('t'), meta=m()))
+        if kind == 'B=B+t': return asg('B', ir.infix('Add', var('B'), var('t'), meta=m()))
+        if kind == 'C=B*B': return asg('C', ir.infix('Mul', var('B'), var('B'), meta=m()))
+        if kind == 'C=C*t': return asg('C', ir.infix('Mul', var('C'), var('t'), meta=m()))
+        if kind == 'final' and task.get('mode') == 'degrees': return ir.subst(V['s'](), 'AssignSignal', var('C'), meta=m())
         if kind == 'B=A': return asg('B', var('A'))
         if kind == 'B=1': return asg('B', ir.number(1, meta=m()))
         if kind == 'B=B+1': return asg('B', ir.infix('Add', var('B'), ir.number(1, meta=m()), meta=m()))
@@ -360,7 +391,7 @@ def run_task(task):
     bb_types = pr.method(None, 'BasicBlock', 'propagate_types'); bb_cache = pr.method('VariableMeta', 'BasicBlock', 'cache_variable_use')
     decl_new = pr.method(None, 'Declaration', 'new', file_hint='declarations.rs'); decls_add = pr.method(None, 'Declarations', 'add_declaration')
     cfg_types = pr.method(None, 'Cfg', 'propagate_types'); cfg_values = pr.method(None, 'Cfg', 'propagate_values'); cfg_cache = pr.method(None, 'Cfg', 'cache_variable_use')
-    side = pr.find('run_side_effect_analysis', crate='analysis')
+    side = pr.find('run_side_effect_analysis', crate='analysis'); cfg_degrees = pr.method(None, 'Cfg', 'propagate_degrees')
 
     def entry(ex):
         idx = ex.concretize(shape, task['lo'], task['hi'] - 1)
@@ -375,13 +406,14 @@ def run_task(task):
         blocks = res.f[0]
         decls = Struct('Declarations', [MapV()]); dcell = [decls]
         sigty = lambda: ir.vtype('signal', 'Output')
-        dl = [(V['A'](), local(), []), (V['B'](), local(), []), (V['C'](), local(), []), (V['D'](), local(), [ir.number(2, meta=ir.meta(903, 903))])] + ([(V['s'](), sigty(), [])] if dt == 'Template' else [])
+        dl = [(V['A'](), local(), []), (V['B'](), local(), []), (V['C'](), local(), []), (V['D'](), local(), [ir.number(2, meta=ir.meta(903, 903))])] + ([(V['s'](), sigty(), [])] if dt == 'Template' else []) + ([(V['t'](), ir.vtype('signal', 'Input'), [])] if task.get('mode') == 'degrees' else [])
         for nm, ty, dims in dl:
             d = ex.call_mir(decl_new, [Ref([nm], 0), Ref([ty], 0), SliceV(VecV(dims), 0, len(dims)), Ref([some(0)], 0), Ref([ir.range_(0, 0)], 0)])
             ex.call_mir(decls_add, [Ref(dcell, 0), Ref([d], 0)])
         stmts0 = ir.get(blocks.items[0], 'stmts')
         pre = [ir.decl([V['B']()], local(), meta=ir.meta(900, 900)), ir.decl([V['C']()], local(), meta=ir.meta(901, 901)), ir.decl([V['D']()], local(), dims=[ir.number(2, meta=ir.meta(903, 903))], meta=ir.meta(903, 903))]
         if dt == 'Template': pre.append(ir.decl([V['s']()], sigty(), meta=ir.meta(902, 902)))
+        if task.get('mode') == 'degrees': pre.append(ir.decl([V['t']()], ir.vtype('signal', 'Input'), meta=ir.meta(904, 904)))
         stmts0.items[0:0] = pre
         n = len(blocks.items)
         for k in range(n):
@@ -404,6 +436,9 @@ def run_task(task):
         ex.call_mir(cfg_cache, [Ref(ccell, 0)])
         if task.get('mode') == 'values':
             ex.notes['cfg'] = ccell[0]; return 'values'
+        if task.get('mode') == 'degrees':
+            ex.call_mir(cfg_degrees, [Ref(ccell, 0)])
+            ex.notes['cfg'] = ccell[0]; return 'degrees'
         ex.call_mir(side, [Ref(ccell, 0)])
         return 'ok'
 
@@ -535,8 +570,96 @@ def run_task(task):
             ex.oblige(z3.Implies(z3.And(*pc), hz) if pc else hz, 'value-claim', '%s, but it has another value in some execution (%s)' % (what, text), extra=info)
         ex.oblige(True, 'claims', 'every value claim on this program checked (%d claim instances)' % nclaims[0])
 
+    def post_degrees(ex):
+        """C07 on whole programs: every upper degree bound (constant / linear / quadratic) the real propagate_degrees attached to an
+        expression node bounds the total degree, in the input signal t, of the polynomial that node evaluates to at EVERY dynamic instance"""
+        sk, kinds, conds = ex.notes['sk'], ex.notes['kinds'], ex.notes['conds']
+        text = describe(sk, kinds, conds)
+        stmts = {}
+        for b in ir.get(ex.notes['cfg'], 'basic_blocks').items:
+            for st in ir.get(b, 'stmts').items:
+                st = deref(st); loc = ir.get(ir.get(st, 'meta'), 'location').f[0]
+                if st.var == 'Substitution' and deref(ir.get(st, 'rhe')).var == 'Phi': continue
+                if loc in kinds or loc in conds: stmts[loc] = st
+        RANK = {'Constant': 0, 'Linear': 1, 'Quadratic': 2}
+        padd = lambda p_, q_: {e: (p_.get(e, 0) + q_.get(e, 0)) % P for e in set(p_) | set(q_)}
+        def pmul(p_, q_):
+            out = {}
+            for e1, c1 in p_.items():
+                for e2, c2 in q_.items(): out[e1 + e2] = (out.get(e1 + e2, 0) + c1 * c2) % P
+            return out
+        pdeg = lambda p_: max([e for e, c in p_.items() if c % P != 0] + [0])
+        bad = []; ninst = [0]
+
+        def bound_of(e):
+            m = e.f[0] if e.var == 'Number' else ir.get(e, 'meta')
+            dk = deref(m).f[pr.defs.struct_fields('ir::Meta').index('degree_knowledge')]
+            v = deref(dk).f[0]
+            if v.var != 'Some': return None
+            hi = deref(v.f[0]).f[1].var
+            return RANK.get(hi)
+
+        def ev(e, st, where):
+            e = deref(e)
+            if isinstance(e, BoxV): e = deref(e.f[0])
+            k = e.var
+            if k == 'Number': val = {0: e.f[1].t % P}
+            elif k == 'Variable':
+                nm_ = ir.get(ir.get(e, 'name'), 'name').concrete()
+                val = {1: 1} if nm_ == 't' else st[nm_]
+            elif k == 'InfixOp':
+                l = ev(ir.get(e, 'lhe'), st, where); r = ev(ir.get(e, 'rhe'), st, where); op = ir.get(e, 'infix_op').var
+                if op == 'Add': val = padd(l, r)
+                elif op == 'Mul': val = pmul(l, r)
+                elif op == 'Lesser': return None          # conditions are over the parameter only
+                else: raise Unsupported('operator %s in the polynomial semantics' % op)
+            else: raise Unsupported('expression %s in the polynomial semantics' % k)
+            bnd = bound_of(e)
+            if bnd is not None and val is not None:
+                ninst[0] += 1
+                if pdeg(val) > bnd: bad.append('the %s node of statement %s is claimed to be of degree <= %d but evaluates to a polynomial of degree %d in t' % (k, where, bnd, pdeg(val)))
+            return val
+
+        A0 = z3.Int('A0'); ex.h.inputs['A0'] = A0
+        slv = z3.Solver(); slv.add(A0 >= 0, A0 < P)
+        def feasible(c):
+            slv.push(); slv.add(c); r = slv.check(); slv.pop(); return r == z3.sat
+
+        def leaf(i, st):
+            kk = kinds[i]; irst = stmts.get(i)
+            if irst is not None and irst.var == 'Substitution': ev(ir.get(irst, 'rhe'), st, i)
+            B_, C_, T_ = st['B'], st['C'], {1: 1}
+            upd = {'B=0': ('B', {0: 0}), 'C=0': ('C', {0: 0}), 'B=t': ('B', T_), 'B=B*t': ('B', pmul(B_, T_)), 'B=B+t': ('B', padd(B_, T_)), 'C=B*B': ('C', pmul(B_, B_)),
+                   'C=C+B': ('C', padd(C_, B_)), 'C=B': ('C', dict(B_)), 'B=1': ('B', {0: 1}), 'C=C*t': ('C', pmul(C_, T_))}.get(kk)
+            if upd: st[upd[0]] = upd[1]
+
+        def run(items, pc, st, budget):
+            if not items: return
+            s_, rest = items[0], items[1:]; k = s_[0]
+            if k == 'leaf':
+                leaf(s_[1], st); return run(rest, pc, st, budget)
+            if k == 'block': return run(list(s_[1]) + list(rest), pc, st, budget)
+            i = s_[1]; cz = fval(A0) < 3
+            for val in (True, False):
+                pcn = pc + [cz if val else z3.Not(cz)]
+                if not feasible(z3.And(*pcn)): continue
+                if k == 'if': run(([s_[2]] if val else []) + list(rest), pcn, dict(st), budget)
+                elif k == 'ifelse': run([s_[2] if val else s_[3]] + list(rest), pcn, dict(st), budget)
+                else:
+                    if val:
+                        n = budget.get(i, 0)
+                        if n >= UNROLL: continue
+                        nb = dict(budget); nb[i] = n + 1
+                        run([s_[2], s_] + list(rest), pcn, dict(st), nb)
+                    else: run(rest, pcn, dict(st), budget)
+        run([sk], [], {'B': {0: 0}, 'C': {0: 0}}, {})
+        info = {'program': text}
+        for msg in sorted(set(bad))[:4]: ex.oblige(False, 'degree-claim', '%s in some execution (%s)' % (msg, text), extra=info)
+        ex.oblige(True, 'claims', 'every degree bound on this program checked (%d claim instances)' % ninst[0])
+
     def post(ex, res):
         if res == 'values': return post_values(ex)
+        if res == 'degrees': return post_degrees(ex)
         if res != 'ok': return
         sk, kinds, conds = ex.notes['sk'], ex.notes['kinds'], ex.notes['conds']
         text = describe(sk, kinds, conds)
@@ -577,10 +700,14 @@ SRC = {'B=0': 'var B = 0;', 'C=0': 'var C = 0;', 'D[0]=0': 'var D[2]; D[0] = 0;'
 CODE = {'unused-value': 'CS0006', 'unused-param': 'CS0007', 'no-side-effect': 'CS0008', 'param-no-side-effect': 'CS0008'}
 
 
-def source_of(sk, kinds, conds, dt):
+SRC_DEG = {'B=t': 'B = t;', 'B=B*t': 'B = B * t;', 'B=B+t': 'B = B + t;', 'C=B*B': 'C = B * B;', 'C=C*t': 'C = C * t;'}
+
+
+def source_of(sk, kinds, conds, dt, degrees=False):
     """-> (text, {line start offset: statement id})"""
     text = 'pragma circom 2.0.0;\nfunction g(x) {\n    return x + 1;\n}\n'
     text += ('template T(A) {\n    signal output s;\n' if dt == 'Template' else 'function f(A) {\n')
+    if degrees: text += '    signal input t;\n'
     spans = []
 
     def emit(s, ind):
@@ -588,7 +715,7 @@ def source_of(sk, kinds, conds, dt):
         pad = '    ' * ind; k = s[0]
         if k == 'leaf':
             kk = kinds[s[1]]
-            line = SRC[kk] if kk != 'final' else ('s <== C;' if dt == 'Template' else 'return C;')
+            line = (SRC_DEG.get(kk) or SRC[kk]) if kk != 'final' else (('s <-- C;' if degrees else 's <== C;') if dt == 'Template' else 'return C;')
             text += pad; spans.append((len(text), len(text) + len(line), s[1])); text += line + '\n'
         elif k == 'block':
             for x in s[1]: emit(x, ind)
